@@ -71,6 +71,23 @@ func auditHook(w *World, instOf func() *Inst, class string) func() {
 		if inst == nil || inst.dead || inst.srv == nil || !inst.ready() || inst.lock.writer != nil || inst.atPoint != "" {
 			return
 		}
+		// no interpreter may sit in the idle pool twice: two commands running at once (shared lock,
+		// or EVALNA between its calls) would be handed the same one
+		if pool := inst.srv.luapool; pool != nil && pool.m.TryLock() {
+			seen := map[interface{}]bool{}
+			dup := false
+			for _, L := range pool.saved {
+				if L != nil && seen[L] {
+					dup = true
+				}
+				seen[L] = true
+			}
+			pool.m.Unlock()
+			if dup {
+				w.violate(class+"/interpreter-pool", "the same Lua interpreter is in the idle pool twice: the next two overlapping script-using commands share one interpreter")
+				return
+			}
+		}
 		d := inst.digest()
 		if inst == lastInst && d == last {
 			return
